@@ -797,7 +797,10 @@ macro_rules! reader_backends {
             }
             RBackend::MemZ => {
                 let words: Vec<$W> = words_from_bytes(image);
-                (mk_reader!($E, $ctor::<$E, _>::new(MemWordReader::new(words)), cfg.kind, desc; seek, io, clone), None)
+                // the library's zero-extended reader, behind a call counter (it can never report an error,
+                // so a reader that runs away over the extension would otherwise spin forever)
+                let budget = 50_000 + 64 * words.len() as u64;
+                (mk_reader!($E, $ctor::<$E, _>::new(Budgeted::new(MemWordReader::new(words), budget)), cfg.kind, desc; seek, io, clone), None)
             }
             RBackend::MemS => {
                 let words: Vec<$W> = words_from_bytes(image);
@@ -839,6 +842,13 @@ pub fn make_reader(cfg: RCfg, image: &[u8]) -> ReaderHandle {
         (En::LE, RKind::Unbuf) => reader_backends!(LE, u64, BitReader, cfg, image),
     };
     ReaderHandle { r, log, cfg }
+}
+
+/// Byte-stream backends over a source whose length is not a multiple of the word size
+/// (only AdCursor / AdBufReader make sense here).
+pub fn make_reader_unaligned(cfg: RCfg, bytes: &[u8]) -> ReaderHandle {
+    assert!(matches!(cfg.be, RBackend::AdCursor | RBackend::AdBufReader));
+    make_reader(cfg, bytes)
 }
 
 // ---- writers ----------------------------------------------------------------------------------
